@@ -6,6 +6,11 @@ import PynnVerif.Driver.Index
 import PynnVerif.Driver.Alias
 import PynnVerif.Driver.Transformer
 import PynnVerif.Driver.RPTree
+import PynnVerif.Driver.Search
+import PynnVerif.Driver.Transport
+import PynnVerif.Driver.Diversify
+import PynnVerif.Driver.Connect
+import PynnVerif.Driver.Metrics
 /-!
 # Line-protocol driver over the executable model
 
@@ -26,7 +31,7 @@ structure St where
   row : Row F := #[]
 
 /-- stateless area handlers (first one that answers wins) -/
-def handlers : List Handler := [handleDescent, handleSparse, handleIndex, handleAlias, handleTransformer, handleRPTree]
+def handlers : List Handler := [handleDescent, handleSparse, handleIndex, handleAlias, handleTransformer, handleRPTree, handleSearch, handleXlate, handleTransport, handleDiversify, handleConnect, handleMetrics]
 
 def step (st : St) (line : String) : St × String :=
   let toks := (line.trimAscii.toString.splitOn " ").filter (· ≠ "")
